@@ -89,6 +89,16 @@ PROPS["C11"] = dict(
                "injectivity, independence of hash_elements from representation, Blake3/SHA3 (external crates).",
     explanation=MIX)
 
+PROPS["C05"] = dict(
+    level="other", claimed=True,
+    level_text="Function-local part of FRI soundness on the real verifier with doubles for channel, hasher and coin: "
+               "the degree-truncation rule of FriVerifier::new, the remainder degree bound, and - for the zero-layer schedule - "
+               "that acceptance implies the remainder is the committed one and agrees with the queried evaluation; the layer count "
+               "(num_fri_layers) is proved for all schedules.",
+    level_note="Bounded shapes (stated per obligation). NOT decided: folding consistency across layers (field-valued "
+               "interpolation), anything probabilistic (distance from low degree), folding factors other than the ones exercised.",
+    explanation=MIX)
+
 NOT_APPLICABLE.update({
     "C01": "whole-protocol completeness over all AIR programs: no per-function contract carries it (DESIGN.md 4.C01)",
     "C02": "cryptographic soundness is probabilistic and adversarial, not a safety property of any function (DESIGN.md 4.C02)",
